@@ -15,6 +15,10 @@
 (* kind "approx" one state of mode "approx" executed on the real           *)
 (*    _integer_approximation of one of the four classes:                   *)
 (*      [cls, tms, te, bs, sbit, spos, predict, exc, scales, shift]        *)
+(* kind "life"   one history of IntegerizeLife (forward / weight updates / *)
+(*    conversions with different option sets) on a flat or nested model;   *)
+(*    every conversion is judged like a "net" against the CURRENT weights  *)
+(*    and the options of THAT call (clauses "C14.life", "C14.struct").     *)
 (* kind "net"    MPS.export() -> integerize_arch(deepcopy, backend) on a   *)
 (*    generated network; per integer layer the observations listed at      *)
 (*    LayerCheck below.                                                    *)
@@ -235,7 +239,7 @@ SampleCheck(t, l, i) ==
 RECURSIVE SamplesFrom(_, _, _)
 SamplesFrom(t, l, i) == IF i > Len(l.samples) THEN OK ELSE Worse(SampleCheck(t, l, i), SamplesFrom(t, l, i + 1))
 
-LayerCheck(t, l) ==
+LayerCheck(t, l, wv) ==
     LET mau   == t.backend = "maupiti"
         pre   == "net " \o t.backend \o " layer " \o l.name \o " (in " \o Str(l.ib) \o "b, out " \o Str(l.ob) \o "b, w "
                     \o Str(l.wb) \o "b): "
@@ -244,7 +248,14 @@ LayerCheck(t, l) ==
         bound == l.bound1024 \div 1024
         levelOK == l.maxdiff >= 0 /\ l.maxdiff <= Max2(1 + bound, l.gap)
         f14   == mau /\ l.ib # l.ob /\ ~l.last
-        ranges == (IF ~(l.shape_ok \/ KF14pad(t)) THEN V("viol", "C14.shape " \o pre \o "output shape differs from the fake-quantised layer")
+        ranges == (IF ~(l.sw_ver = wv) THEN V("viol", "C14.life " \o pre \o "the stored weight scale s_w (hence scale, shift and integer bias) "
+                        \o (IF l.sw_ver < 0 THEN "is not the scale of any weights version of the history"
+                            ELSE "is the scale of weights version " \o Str(l.sw_ver)) \o ", the current weights are version " \o Str(wv))
+          ELSE IF ~(l.wint_ver = wv) THEN V("viol", "C14.life " \o pre \o "the integer weights are not the quantised CURRENT weights (version "
+                        \o Str(wv) \o "; matching version: " \o Str(l.wint_ver) \o ")")
+          ELSE IF ~(l.used_sb = t.scale_bit /\ l.used_sp = t.shift_pos) THEN V("viol", "C14.life " \o pre \o "built with scale_bit/shift_pos "
+                        \o Str(<<l.used_sb, l.used_sp>>) \o " but this call has to use " \o Str(<<t.scale_bit, t.shift_pos>>))
+          ELSE IF ~(l.shape_ok \/ KF14pad(t)) THEN V("viol", "C14.shape " \o pre \o "output shape differs from the fake-quantised layer")
           ELSE IF ~(l.shape_ok) THEN V("known", "known:F14:MAUPITIConv2d pads all four sides with padding[0] (non-square padding); " \o pre \o "output shape differs")
           ELSE IF ~(l.lo_in = inLo /\ (l.last \/ (l.lo = ActLo(t.backend, l.ob) /\ l.hi = ActHi(t.backend, l.ob)))) THEN V("viol", "C14.trace " \o pre \o "logged ranges are not the declared ones")
           ELSE IF ~(l.w_int /\ l.w_min >= WLo(l.wb) /\ l.w_max <= WHi(l.wb)) THEN V("viol", "C14.range " \o pre \o "stored weights " \o Str(l.w_min) \o ".." \o Str(l.w_max) \o " not integers of a signed "
@@ -268,8 +279,8 @@ LayerCheck(t, l) ==
         ELSE IF ~l.shape_ok THEN ranges
         ELSE Worse(Worse(ranges, level), SamplesFrom(t, l, 1))
 
-RECURSIVE LayersFrom(_, _)
-LayersFrom(t, i) == IF i > Len(t.layers) THEN OK ELSE Worse(LayerCheck(t, t.layers[i]), LayersFrom(t, i + 1))
+RECURSIVE LayersFrom(_, _, _)
+LayersFrom(t, i, wv) == IF i > Len(t.layers) THEN OK ELSE Worse(LayerCheck(t, t.layers[i], wv), LayersFrom(t, i + 1, wv))
 
 FinalCheck(t) ==
     LET f   == t.final
@@ -283,15 +294,57 @@ FinalCheck(t) ==
                       \o pre \o "1000*error/tolerance = " \o Str(f.ratio1000))
           ELSE OK)
 
-NetCheck(t) ==
-    IF t.stage # "done" THEN CrashCheck(t)
+\* structural clause: type census of the graph of the result.  Every Quant layer the input graph calls must have become
+\* a backend layer that the result calls; no Quant layer may still be called by, or be left inside, the result.
+CensusOK(c) == c.quant_called = 0 /\ c.quant_modules = 0 /\ c.backend_called = c.quant_in
+
+\* wv = version of the weights the conversion has to be made of (0 when the history has no update)
+NetCheckAt(t, wv) ==
+    IF t.stage \in {"done", "census"} /\ ~CensusOK(t.census)
+    THEN V("viol", "C14.struct net " \o t.backend \o ": the input graph calls " \o Str(t.census.quant_in) \o " Quant layers; the result calls "
+                   \o Str(t.census.backend_called) \o " backend layers and still calls " \o Str(t.census.quant_called)
+                   \o " Quant layers (" \o Str(t.census.quant_modules) \o " left as modules); " \o t.msg)
+    ELSE IF t.stage = "census" THEN V("viol", "C14.trace net: census consistent but layers not matched; " \o t.msg)
+    ELSE IF t.stage # "done" THEN CrashCheck(t)
     ELSE IF Len(t.layers) # Len(t.spec) THEN V("viol", "C14.trace net: layer count mismatch")
-    ELSE Worse(LayersFrom(t, 1), IF Has(t.final, "name") THEN FinalCheck(t) ELSE OK)
+    ELSE IF ~t.kw_same THEN V("viol", "C14.life net " \o t.backend \o ": integerize_arch modified the caller's backend_kwargs")
+    ELSE Worse(LayersFrom(t, 1, wv), IF Has(t.final, "name") THEN FinalCheck(t) ELSE OK)
+
+NetCheck(t) == NetCheckAt(t, 0)
+
+(***************************************************************************)
+(* kind "life": one history of IntegerizeLife executed on the real         *)
+(* library:  [nest, ev |-> << [a |-> "fwd"] | [a |-> "upd", k] |           *)
+(*   [a |-> "int", backend, sb, sp, obs |-> <a "net" record>] >>].         *)
+(* The walk carries the life state of IntegerArith Part D (intended        *)
+(* behaviour, "ref"); at every conversion the observations are judged      *)
+(* against the weights version and the options THIS call has to use        *)
+(* (declared defaults where an option was not passed).                     *)
+(***************************************************************************)
+RECURSIVE LifeWalk(_, _, _, _)
+LifeWalk(t, i, st, acc) ==
+    IF i > Len(t.ev) THEN acc
+    ELSE LET e == t.ev[i] IN
+         IF e.a = "fwd" THEN LifeWalk(t, i + 1, LifeFwd(st), acc)
+         ELSE IF e.a = "upd" THEN LifeWalk(t, i + 1, LifeUpd(st), acc)
+         ELSE IF e.a = "int"
+         THEN LET r == LifeInt("ref", st, e.backend, Opt(e.sb, e.sp), t.nest)
+                  o == [e.obs EXCEPT !.scale_bit = r.res.used.sb, !.shift_pos = r.res.used.sp]
+                  v == NetCheckAt(o, r.res.wFrom)
+                  w == IF v.k = "ok" THEN v
+                       ELSE V(v.k, v.m \o " [history event " \o Str(i) \o " of " \o Str([j \in 1..Len(t.ev) |->
+                                IF t.ev[j].a = "int" THEN <<"int", t.ev[j].backend, t.ev[j].sb, t.ev[j].sp>>
+                                ELSE IF t.ev[j].a = "upd" THEN <<"upd", t.ev[j].k>> ELSE <<"fwd">>]) \o ", " \o t.nest \o " model]")
+              IN  LifeWalk(t, i + 1, r.st, Worse(acc, w))
+         ELSE V("viol", "C14.trace life: unknown event")
+
+LifeCheck(t) == LifeWalk(t, 1, LifeInit, OK)
 
 Check(t) ==
     LET v == CASE t.kind = "tiny"   -> TinyCheck(t)
                [] t.kind = "approx" -> ApproxCheck(t)
                [] t.kind = "net"    -> NetCheck(t)
+               [] t.kind = "life"   -> LifeCheck(t)
                [] OTHER -> V("viol", "C14.trace unknown kind")
     IN  v.m
 
